@@ -158,8 +158,11 @@ func (c *compressor) writeBlock() {
 	c.next = 0
 
 	b := c.buf.Bytes()
-	i := bytes.Index(b, bgzfExtraPrefix)
-	if i < 0 {
+	// The BC subfield is the first subfield of the extra field, which
+	// follows the 10 byte fixed gzip header and the 2 byte XLEN. Searching
+	// for its prefix from the start of the member can hit MTIME/XFL/OS.
+	const i = 12
+	if len(b) < i+len(bgzfExtra) || !bytes.Equal(b[i:i+4], bgzfExtraPrefix) {
 		c.err = gzip.ErrHeader
 		return
 	}
